@@ -346,7 +346,8 @@ func c05Volumes(c *rt.Ctx, h int) {
 		kind := ""
 		switch k := r.IntN(20); {
 		case k < 2:
-			vol := vols[1+r.IntN(2)]
+			// the volume is named by its bare name or by a path on it
+			vol := vols[1+r.IntN(2)] + []string{"", "", `\`, `/`, `\d`}[r.IntN(5)]
 			kind, err = "VolumeAdd", v.VolumeAdd(vol)
 			what = fmt.Sprintf("VolumeAdd(%q)", vol)
 		case k < 4:
